@@ -153,6 +153,8 @@ pub broadcast axiom fn ax_obeys_neg<F: PrimeField>() ensures #[trigger] <F as Ne
 pub broadcast axiom fn ax_obeys_add_assign<F: PrimeField>() ensures #[trigger] <F as AddAssignSpec<F>>::obeys_add_assign_spec();
 pub broadcast axiom fn ax_obeys_sub_assign<F: PrimeField>() ensures #[trigger] <F as SubAssignSpec<F>>::obeys_sub_assign_spec();
 pub broadcast axiom fn ax_obeys_mul_assign<F: PrimeField>() ensures #[trigger] <F as MulAssignSpec<F>>::obeys_mul_assign_spec();
+pub broadcast axiom fn ax_obeys_mulr<F: PrimeField>() ensures #[trigger] <F as MulSpec<&'static F>>::obeys_mul_spec();
+pub broadcast axiom fn ax_obeys_mulr_assign<F: PrimeField>() ensures #[trigger] <F as MulAssignSpec<&'static F>>::obeys_mul_assign_spec();
 pub broadcast axiom fn ax_add<F: PrimeField>(a: F, b: F)
     ensures #[trigger] <F as AddSpec<F>>::add_spec(a, b) == F::s_add(a, b);
 pub broadcast axiom fn ax_add_req<F: PrimeField>(a: F, b: F) ensures #[trigger] <F as AddSpec<F>>::add_req(a, b);
@@ -183,10 +185,14 @@ pub broadcast axiom fn ax_mulr_assign<F: PrimeField>(a: F, b: &F)
 pub broadcast axiom fn ax_mulr_assign_req<F: PrimeField>(a: F, b: &F)
     ensures #[trigger] <F as MulAssignSpec<&F>>::mul_assign_req(&a, b), <F as MulAssignSpec<&F>>::obeys_mul_assign_spec();
 pub broadcast group field_ops {
-    ax_obeys_add, ax_obeys_sub, ax_obeys_mul, ax_obeys_neg, ax_obeys_add_assign, ax_obeys_sub_assign, ax_obeys_mul_assign, ax_add, ax_sub, ax_mul, ax_mulr, ax_neg, ax_add_assign, ax_sub_assign, ax_mul_assign, ax_mulr_assign,
+    ax_obeys_add, ax_obeys_sub, ax_obeys_mul, ax_obeys_neg, ax_obeys_add_assign, ax_obeys_sub_assign, ax_obeys_mul_assign, ax_obeys_mulr, ax_obeys_mulr_assign, ax_add, ax_sub, ax_mul, ax_mulr, ax_neg, ax_add_assign, ax_sub_assign, ax_mul_assign, ax_mulr_assign,
     ax_add_req, ax_sub_req, ax_mul_req, ax_mulr_req, ax_neg_req, ax_add_assign_req, ax_sub_assign_req, ax_mul_assign_req, ax_mulr_assign_req,
 }
 
+// field elements are plain values: Clone is Copy
+pub broadcast axiom fn ax_field_clone<F: PrimeField>(a: &F, b: F)
+    requires #[trigger] call_ensures(<F as Clone>::clone, (a,), b),
+    ensures *a == b;
 // ring / field axioms (A1) — not broadcast; proofs cite them explicitly
 pub axiom fn fax_add_comm<F: PrimeField>(a: F, b: F) ensures F::s_add(a, b) == F::s_add(b, a);
 pub axiom fn fax_add_assoc<F: PrimeField>(a: F, b: F, c: F) ensures F::s_add(F::s_add(a, b), c) == F::s_add(a, F::s_add(b, c));
@@ -343,7 +349,12 @@ pub trait CanonicalSerialize {
         ensures r is Ok ==> final(w).inner@ == old(w).inner@ + self.enc();
 }
 pub trait CanonicalDeserialize: Sized {
-    fn deserialize_compressed(r: &mut Cursor<&[u8]>) -> Result<Self, SerializationError>;
+    /// `v` was decoded from (a prefix of) `bytes` by the *validating, compressed* decoder: canonical scalars,
+    /// points on the curve and in the prime-order subgroup, complete input (assumed behaviour of ark-serialize, A5)
+    spec fn valid_decoding(bytes: Seq<u8>, v: Self) -> bool;
+    fn deserialize_compressed(r: &mut Cursor<&[u8]>) -> (res: Result<Self, SerializationError>)
+        ensures res is Ok ==> Self::valid_decoding(old(r).inner@, res->Ok_0);
+    // the non-validating / uncompressed variants promise nothing
     fn deserialize_compressed_unchecked(r: &mut Cursor<&[u8]>) -> Result<Self, SerializationError>;
     fn deserialize_uncompressed(r: &mut Cursor<&[u8]>) -> Result<Self, SerializationError>;
 }
